@@ -113,6 +113,21 @@ pub fn exec_op(ctx: &mut ArrCtx, verb: &str, m: &BTreeMap<String, String>) -> St
             Err(_) => "err".into(),
         },
         "retrieve_chunks" => res_val(es, a.retrieve_chunks_opt(&parse_subset(&m["box"]), &o)),
+        // the encoded chunks of a box, in the order of `chunks.indices()`: which positions hold a value, and position i must
+        // hold exactly what `retrieve_encoded_chunk` returns for the i-th index (whatever the concurrency target)
+        "enc_chunks" => {
+            let b = parse_subset(&m["box"]);
+            match a.retrieve_encoded_chunks(&b, &o) {
+                Ok(v) => {
+                    for (i, idx) in b.indices().into_iter().enumerate() {
+                        let single = a.retrieve_encoded_chunk(&idx).ok().flatten();
+                        if v.get(i).map(|x| x.as_ref().map(|y| y.to_vec())) != Some(single.map(|y| y.to_vec())) { return format!("encs position {} does not hold the encoded chunk {}", i, nl(&idx)); }
+                    }
+                    if v.is_empty() { "encs ~".into() } else { format!("encs {}", v.iter().map(|x| if x.is_some() { '1' } else { '0' }).collect::<String>()) }
+                }
+                Err(_) => "err".into(),
+            }
+        }
         "retrieve_chunk_subset" => res_val(es, a.retrieve_chunk_subset_opt(&pnl(&m["c"]), &parse_subset(&m["r"]), &o)),
         "retrieve_array_subset" => res_val(es, a.retrieve_array_subset_opt(&parse_subset(&m["r"]), &o)),
         "keys" => list_keys(ctx),
